@@ -1,5 +1,6 @@
 import GoomVerif.Drv.Util
 import GoomVerif.Model.Equal
+import GoomVerif.Model.ShareC18
 /-! Driver for C18.
 
 `c18.ev <nT> <T>* <expr> <k> <input-tuple>*`  →  `R=<resolve> E=<answer>,<answer>,…`
@@ -274,7 +275,97 @@ def handleV (toks : List String) : Option String :=
     some (go.getD "bad-op")
   | _ => none
 
+/-! `c18.sh <nObj> <objdef>* <nSteps> <step>*` — shared expression objects.
+    `objdef` = `any` | `anyvalues` | `eq <arg>` | `in <n> (c <comp> | t <m> <comp>*)*`, `comp` = `v <arg>` | `r <id>` (an earlier object);
+    `step` = `R <id> <n> <T>*` | `E <id> <n> <T>* <input>*`.  Answer `S=` one observation per step. -/
+
+def pSComp (fuel : Nat) : P SComp := fun toks =>
+  match toks with
+  | "v" :: r => (pArg fuel r).map (fun (a, r) => (.val a, r))
+  | "r" :: id :: r => (parseNat id).map (fun id => (.ref id, r))
+  | _ => none
+
+def pSComps (fuel : Nat) : Nat → P (List SComp)
+  | 0, toks => some ([], toks)
+  | n + 1, toks => do
+    let (c, r) ← pSComp fuel toks
+    let (cs, r) ← pSComps fuel n r
+    pure (c :: cs, r)
+
+def pSItems (fuel : Nat) : Nat → P (List SItem)
+  | 0, toks => some ([], toks)
+  | n + 1, toks =>
+    match toks with
+    | "c" :: r => do
+      let (c, r) ← pSComp fuel r
+      let (rest, r) ← pSItems fuel n r
+      pure (.one c :: rest, r)
+    | "t" :: m :: r => do
+      let m ← parseNat m
+      let (cs, r) ← pSComps fuel m r
+      let (rest, r) ← pSItems fuel n r
+      pure (.tuple cs :: rest, r)
+    | _ => none
+
+def pSExpr (fuel : Nat) : P SExpr := fun toks =>
+  match toks with
+  | "any" :: r => some (.any, r)
+  | "anyvalues" :: r => some (.any, r)
+  | "eq" :: r => (pArg fuel r).map (fun (a, r) => (.equals a, r))
+  | "in" :: n :: r => do
+    let n ← parseNat n
+    let (items, r) ← pSItems fuel n r
+    pure (.inE items, r)
+  | _ => none
+
+def pSObjs (fuel : Nat) : Nat → P (List SObj)
+  | 0, toks => some ([], toks)
+  | n + 1, toks => do
+    let (e, r) ← pSExpr fuel toks
+    let (os, r) ← pSObjs fuel n r
+    pure ({ src := e, st := initState e } :: os, r)
+
+def pSSteps (fuel : Nat) : Nat → P (List SStep)
+  | 0, toks => some ([], toks)
+  | n + 1, toks =>
+    match toks with
+    | "R" :: id :: k :: r => do
+      let id ← parseNat id
+      let k ← parseNat k
+      let (tys, r) ← pTys k r
+      let (ss, r) ← pSSteps fuel n r
+      pure (.resolve id tys :: ss, r)
+    | "E" :: id :: k :: r => do
+      let id ← parseNat id
+      let k ← parseNat k
+      let (tys, r) ← pTys k r
+      let (inp, r) ← pTuple fuel tys r
+      let (ss, r) ← pSSteps fuel n r
+      pure (.eval id inp :: ss, r)
+    | _ => none
+
+def showSObs : SObs → String
+  | .resolved r => showRes (fun _ => "ok") r
+  | .answered r => showRes (fun b => if b then "t" else "f") r
+
+def handleS (toks : List String) : Option String :=
+  match toks with
+  | "c18.sh" :: n :: rest =>
+    let fuel := toks.length + 1
+    let go : Option String := do
+      let n ← parseNat n
+      let (objs, r) ← pSObjs fuel n rest
+      let (k, r) ← (match r with | k :: r => (parseNat k).map (fun k => (k, r)) | [] => none)
+      let (steps, r) ← pSSteps fuel k r
+      if !r.isEmpty then none else
+      pure s!"S={String.intercalate "," ((runS (n + 2) objs steps).map showSObs)}"
+    some (go.getD "bad-op")
+  | _ => none
+
 def handle (toks : List String) : Option String :=
+  match handleS toks with
+  | some s => some s
+  | none =>
   match handleV toks with
   | some s => some s
   | none =>
